@@ -386,20 +386,29 @@ def opt_fixlen(ctx):
                     good = False
             out.append(ok(key) if good else bad(key, "%s match length must be Some(min*len) iff min==max" % key, b.loc()))
         elif key in ("Repeat", "UnambiguousRepeat"):
-            cl = ctx.body(b.path + "::{closure#0}")
-            good = cl is not None
-            if cl:
-                for p in ctx.walk(cl).paths:
-                    gs, r = summarize(p)
-                    eq = any(g in ("eq(a1.0.max, a1.0.min)", "eq(a1.0.min, a1.0.max)") for g in gs)
-                    if eq and r not in ("Option::Some{0: mul(a1.0.min, a2)}", "Option::Some{0: mul(a2, a1.0.min)}"):
-                        good = False
-                    if not eq and r != "Option::None":
-                        good = False
-            rs = _ret_set(ctx, b)
-            if not any("and_then(get_match_length(a1.operation" in r for r in rs):
-                good = False
-            out.append(ok(key) if good else bad(key, "%s match length must be child length * min iff min==max and the child is fixed-length; found %s" % (key, sorted(rs)), b.loc()))
+            # decision table over the function's own paths (an `and_then` closure, `?` or a match all read the same)
+            CH = "get_match_length(a1.operation)"
+            good, seen_some = True, False
+            rs = set()
+            for p in ctx.walk(b).paths:
+                if p.end != "return":
+                    continue
+                gs, r = summarize(p)
+                gs = [_sh(strip_ver(g)).replace("<Operation as OperationControl>::", "") for g in gs]
+                r = _sh(strip_ver(r)).replace("<Operation as OperationControl>::", "")
+                rs.add(r)
+                none = ("variant(%s)=None" % CH) in gs
+                some = ("variant(%s)=Some" % CH) in gs
+                eq = any(g in ("eq(a1.max, a1.min)", "eq(a1.min, a1.max)") for g in gs)
+                neq = any(g in ("!eq(a1.max, a1.min)", "!eq(a1.min, a1.max)") for g in gs)
+                if none or neq:
+                    good = good and r == "Option::None"
+                elif some and eq:
+                    seen_some = True
+                    good = good and r in ("Option::Some{0: mul(a1.min, %s as Some.0)}" % CH, "Option::Some{0: mul(%s as Some.0, a1.min)}" % CH)
+                else:
+                    good = False
+            out.append(ok(key) if good and seen_some else bad(key, "%s match length must be child length * min iff min==max and the child is fixed-length; found %s" % (key, sorted(rs)), b.loc()))
         elif key == "Capture":
             rs = _ret_set(ctx, b)
             out.append(ok(key) if rs == {"get_match_length(a1.child_op)"} else bad(key, "Capture match length must be its child's; found %s" % sorted(rs), b.loc()))
@@ -409,9 +418,8 @@ def opt_fixlen(ctx):
             good = cl is not None and any("try_fold(" in r and ", 0, " in r for r in rs)
             if cl:
                 cr = _ret_set(ctx, cl)
-                good = good and any("Option::map(get_match_length(a3)" in r for r in cr)
-                inner = ctx.body(cl.path + "::{closure#0}")
-                good = good and inner is not None and _ret_set(ctx, inner) in ({"add(a1.0, a2)"}, {"add(a2, a1.0)"})
+                cr = {x.replace("<Operation as OperationControl>::", "") for x in cr}
+                good = good and cr in ({"Option::None", "Option::Some{0: add(a2, get_match_length(a3) as Some.0)}"}, {"Option::None", "Option::Some{0: add(get_match_length(a3) as Some.0, a2)}"})
             out.append(ok(key) if good else bad(key, "Sequence match length must be the all-Some sum (try_fold) of its operations' lengths; found %s" % sorted(rs), b.loc()))
         elif key == "Choice":
             good = True
